@@ -193,7 +193,7 @@ def check_case(ctx, g, rng, model=None, limit=5.0, shuffle=True, prunes=(True, F
         if model is not None and n <= 400 and o2["outcome"] != "Timeout":
             model.add("solve", dict(wire.game_payload(h), prune=prune), expect=dict(o2, nodes=None),
                       inp={"game": gen.desc(h), "prune": prune} if n <= 30 else {"meta": g.get("_meta")},
-                      suite="corr.rewards")
+                      suite="corr.solve", cmp=wire.staged(ctx, set(wire.STAGES)))
     ctx.case({"game": gen.desc(g), "perm": perm} if n <= 30 else {"meta": g.get("_meta"), "perm_head": perm[:10]}, nt)
     ctx.count("family=" + str(g.get("_meta", {}).get("family", "?")).split(":")[0])
     import time as _t
